@@ -38,7 +38,7 @@ def graph_sets(dump):
 
 def execute(rules, skeleton, H, names, params):
     from biobalm import SuccessionDiagram
-    full = SuccessionDiagram.from_rules(rules)
+    full = hist.from_rules(rules)
     full.expand_bfs()
     fulld = ops.dump_sd(full, names, attractors=False)
     subspaces = list(itertools.product((0, 1, None), repeat=len(names)))
